@@ -678,6 +678,10 @@ def join_av(a, b):
     if b is None:
         return a
     ka = a.kind
+    # X or None (a result that may be absent): X's value, marked optional; `is None` on it is unknown until a test refines it
+    if (ka == K_NONE) != (b.kind == K_NONE) and (a if ka != K_NONE else b).kind in (K_TUPLE, K_ARRAY, K_SCALAR, K_LIST):
+        x = a if ka != K_NONE else b
+        return x.replace(tags=x.tags | frozenset(["maybe-none"]), const=_NOCONST)
     kind = ka if ka == b.kind else K_TOP
     if {ka, b.kind} == {K_SCALAR, K_BOOL}:
         kind = K_SCALAR
